@@ -123,19 +123,44 @@ def hashEq (F : FloatOps) (a b : Val) : Bool := hashStream F a == hashStream F b
 /-- what a hashed `IndexMap` probe accepts: same hash and `Equivalent` -/
 def keyEqH (F : FloatOps) (a b : Val) : Bool := hashEq F a b && keyEq F a b
 
+/-- three-way comparison of integers -/
+def intCmp (x y : Int) : Ordering := if x < y then .lt else if y < x then .gt else .eq
+
+/-- `type_rank` of `ValueKey::partial_cmp` (fix abae06d): keys of different kinds are ordered by kind -/
+def kindRank : Val → Int
+  | .null => 0
+  | .bool _ => 1
+  | .num _ => 2
+  | .str _ => 3
+  | .range _ _ => 4
+  | .tuple _ => 5
+  | _ => 6
+
+/-- `(a.start(), a.end()).partial_cmp(..)` on `(Option<i64>, Option<(i64, bool)>)` is lexicographic
+with `None` first and `false < true`. All components are bounded, so the lexicographic order is the
+order of this single integer: start (none = -2^64) · 2^70 + end (none = -2^64) · 2 + inclusive. -/
+def rangeCode (a : Option Int64) (b : Option (Int64 × Bool)) : Int :=
+  let s : Int := match a with | none => -18446744073709551616 | some x => x.toInt
+  let e : Int := match b with | none => -18446744073709551616 | some (x, _) => x.toInt
+  let i : Int := match b with | some (_, true) => 1 | _ => 0
+  (s + 18446744073709551616) * 1180591620717411303424 + (e + 18446744073709551616) * 2 + i
+
 mutual
-/-- `impl PartialOrd for ValueKey` (used by `map.sort` without arguments) -/
+/-- `impl PartialOrd for ValueKey` (the comparator of `map.sort()` without arguments), since fix
+abae06d a total order: null first, then by kind, and within a kind by value -/
 def keyCmp (F : FloatOps) : Val → Val → Ordering
   | .null, .null => .eq
   | .null, _ => .lt
   | _, .null => .gt
+  | .bool a, .bool b => intCmp a.toNat b.toNat
   | .num a, .num b => numCmp F a b
   | .str a, .str b => bytesCmp a b
+  | .range a b, .range c d => intCmp (rangeCode a b) (rangeCode c d)
   | .tuple xs, .tuple ys =>
     if xs.length < ys.length then .lt
     else if ys.length < xs.length then .gt
     else keyCmpList F xs ys
-  | _, _ => .eq
+  | a, b => intCmp (kindRank a) (kindRank b)
 def keyCmpList (F : FloatOps) : List Val → List Val → Ordering
   | x :: xs, y :: ys =>
     match keyCmp F x y with
